@@ -293,6 +293,46 @@ void vf_case(vf::Ctx& c) {
         }
         ZSTD_freeDCtx(d);
         (void)single;
+        // (a2) the limit is judged for EVERY frame of a long-lived decoder, whatever buffers earlier frames left behind and
+        //      however the limit moved in between (heap context; normal and stable-output mode)
+        {
+            ZSTD_DCtx* ld = ZSTD_createDCtx();
+            bool stableOut = t.chance(30);
+            if (stableOut) ZSTD_DCtx_setParameter(ld, ZSTD_d_stableOutBuffer, 1);
+            unsigned nfr = (unsigned)t.range(2, 4);
+            for (unsigned fi = 0; fi < nfr; fi++) {
+                int wli = (int)t.range(10, 23);
+                std::vector<uint8_t> xi = gen::gen_content_sized(t, (size_t)t.range(1000, 300000)), fi_bytes;
+                ZSTD_CCtx* c3 = ZSTD_createCCtx(); ZSTD_CCtx_setParameter(c3, ZSTD_c_windowLog, wli); ZSTD_CCtx_setParameter(c3, ZSTD_c_checksumFlag, 1);
+                size_t n3 = stream_compress(c3, xi, fi_bytes, t); ZSTD_freeCCtx(c3);
+                VF_CHECK(c, !ZSTD_isError(n3), "setup compress");
+                fw::Frame f3 = fw::walk(fi_bytes.data(), n3);
+                VF_CHECK(c, f3.ok, "walker");
+                int Wi = (int)t.range(10, 25); unsigned long long lim = 1ull << Wi;
+                size_t sr = t.flip() ? ZSTD_DCtx_setParameter(ld, ZSTD_d_windowLogMax, Wi) : ZSTD_DCtx_setMaxWindowSize(ld, (size_t)lim);
+                VF_CHECK(c, !ZSTD_isError(sr), "changing the window limit between frames failed: %s", ZSTD_getErrorName(sr));
+                vf::Buf so(stableOut ? xi.size() + 64 : 4096);
+                ZSTD_inBuffer in4 = {fi_bytes.data(), n3, 0}; size_t r4 = 1, prod = 0, spos = 0; bool same = true;
+                for (unsigned g = 0; g < 10000000 && r4 != 0; g++) {
+                    ZSTD_outBuffer o = {so.p, so.n, stableOut ? spos : 0};
+                    size_t o0 = o.pos;
+                    r4 = ZSTD_decompressStream(ld, &o, &in4);
+                    if (ZSTD_isError(r4)) break;
+                    size_t got = o.pos - o0;
+                    if (got && prod + got <= xi.size() && memcmp(xi.data() + prod, so.p + o0, got)) same = false;
+                    prod += got; if (stableOut) spos = o.pos;
+                }
+                if (f3.window_size > lim) {
+                    VF_CHECK(c, ZSTD_isError(r4) && ZSTD_getErrorCode(r4) == ZSTD_error_frameParameter_windowTooLarge, "frame %u on a long-lived decoder%s: window %llu exceeds the limit %llu now in force but decoding %s", fi, stableOut ? " (stable output)" : "", (unsigned long long)f3.window_size, lim, ZSTD_isError(r4) ? ZSTD_getErrorName(r4) : "succeeded");
+                    c.label("long_lived_decoder_refusals");
+                    ZSTD_DCtx_reset(ld, ZSTD_reset_session_only);
+                } else {
+                    VF_CHECK(c, !ZSTD_isError(r4) && prod == xi.size() && same, "frame %u on a long-lived decoder: window %llu within the limit %llu but %s", fi, (unsigned long long)f3.window_size, lim, ZSTD_isError(r4) ? ZSTD_getErrorName(r4) : "content differs");
+                    c.label("long_lived_decoder_accepts");
+                }
+            }
+            ZSTD_freeDCtx(ld);
+        }
         // (b) static DStream sized by estimateDStreamSize / _fromFrame
         size_t est = t.flip() ? ZSTD_estimateDStreamSize_fromFrame(f.data(), n) : ZSTD_estimateDStreamSize((size_t)window);
         VF_CHECK(c, !ZSTD_isError(est), "estimateDStreamSize error");
